@@ -9,7 +9,7 @@ TokExtra == { <<"%","A">>, <<"[">>, <<"]">>, <<"%","b">>, <<"%","f">>,
               (* sets at their edges: a reversed range (empty), a one-character range, a negated range, a trailing and a
                  leading "-", "]" as the first element *)
               <<"[","b","-","a","]">>, <<"[","c","-","c","]">>, <<"[","^","a","-","b","]">>, <<"[","a","-","]">>, <<"[","-","a","]">>,
-              <<"[","]","a","]">> }
+              <<"[","]","a","]">>, <<"[","^","]","]">>, <<"[","^","]","a","]">>, <<"[","]","]">>, <<"[","^","-","]">>, <<"[","^","^","]">> }
 TokFull == TokCore \cup TokExtra
 (* a smaller alphabet for longer patterns: one representative per construct *)
 TokSmall == { <<"a">>, <<".">>, <<"[","^","a","]">>, <<"*">>, <<"-">>, <<"?">>, <<"(">>, <<")">>, <<"(",")">>, <<"%","1">>,
